@@ -32,13 +32,21 @@ def tlc_cases(family, name):
     raise ToolError(f"FramingGen printed no cases ({r['out']})")
 
 def near_delimiter(c):
-    """cuts that fall inside or next to an end-of-message delimiter (the risky region)"""
+    """cuts that fall inside or next to an end-of-message delimiter or in the first bytes of the next message"""
     pos = 0; hot = set()
     for b in c["bodies"]:
-        ln = 3 + len(b) + 6
-        hot.update(range(pos + ln - 7, pos + ln + 1))
+        ln = 6 + len(b) + 6
+        hot.update(range(pos + ln - 7, pos + ln + 4))
         pos += ln
     return any(x in hot for x in c["cuts"])
+
+def corner(c):
+    """always run: nothing cut at all (several messages in one write), one cut exactly on a message boundary,
+    and anything with a big body"""
+    ends = []; pos = 0
+    for b in c["bodies"]:
+        pos += 6 + len(b) + 6; ends.append(pos)
+    return (not c["cuts"]) or (len(c["cuts"]) == 1 and c["cuts"][0] in ends) or any("X" in b for b in c["bodies"]) and len(c["cuts"]) <= 1
 
 def select(prop, tier, rng):
     fams = ["F1", "F2", "F3"] if prop == "C06" else ["F4", "F5", "F3"]
@@ -49,17 +57,18 @@ def select(prop, tier, rng):
     chosen = []
     for f, cases in universe.items():
         if tier == "thorough":
-            budget = {"F1": 344, "F2": 1200, "F3": 8, "F4": 1000, "F5": 162}[f]
+            budget = {"F1": 600, "F2": 1500, "F3": 12, "F4": 1000, "F5": 200}[f]
         else:
-            budget = {"F1": 90, "F2": 90, "F3": 8, "F4": 120, "F5": 40}[f]
+            budget = {"F1": 110, "F2": 150, "F3": 12, "F4": 120, "F5": 40}[f]
         if len(cases) <= budget:
             pick = list(cases)
         else:
-            hot = [c for c in cases if near_delimiter(c)] if f in ("F1", "F2") else []
+            pick = [c for c in cases if corner(c)] if f in ("F1", "F2") else []
+            hot = [c for c in cases if near_delimiter(c) and c not in pick] if f in ("F1", "F2") else []
             rng.shuffle(hot)
-            pick = hot[: budget // 2]
+            pick += hot[: max(0, budget - len(pick)) * 2 // 3]
             rest = [c for c in cases if c not in pick]
-            pick += rng.sample(rest, budget - len(pick))
+            pick += rng.sample(rest, max(0, budget - len(pick)))
         for c in pick:
             c = dict(c); c["family"] = f
             chosen.append(c)
